@@ -107,7 +107,9 @@ def run_case(case, extdir):
         if key == 'no_unexpected_exception':
             confirmed = st.startswith('exc')
         else:
-            confirmed = (st == 'ok' and key in resd and not resd[key]) or st.startswith('exc')
+            # harnesses whose replay states the property differently (real parser on a synthesised witness) have other
+            # obligation names: then any failing concrete obligation on the solver's input confirms the violation
+            confirmed = (st == 'ok' and ((key in resd and not resd[key]) or (key not in resd and any(not ok_ for ok_ in resd.values())))) or st.startswith('exc')
         if confirmed:
             seen.add(key)
             out['violations'].append(dict(obligation=key, inputs=m, observed=st if st != 'ok' else 'obligation false on real code',
